@@ -251,6 +251,10 @@ RUN_TIMEOUT = float(os.environ.get("VERIF_RUN_TIMEOUT_S", "120"))
 
 def run_once(machine, plan, prop, keep_trace=False, timeout=None):
     timeout = timeout or RUN_TIMEOUT
+    if getattr(machine, "needs_refserver", False):
+        from . import refserver
+
+        refserver.client()  # created in this process, before the fork, so the run child inherits its pipes
     return isolated(execute_plan, (machine, plan, prop, keep_trace), timeout=timeout)
 
 
